@@ -118,6 +118,9 @@ inductive Inl
   | footref (name : String)            -- [#name]_
   | subref (name : String)             -- |name|
   | namedref (name : String)           -- `name`_
+  /-- a role whose label is written with backslash escapes: `labelSrc` is what the source holds, `labelTxt` what the
+  reader sees (supplied by the harness: the escape kernel has its own model, `Model/Escape.lean`) -/
+  | roleL (markup : String) (labelSrc labelTxt : String) (target : String) (spec : RoleSpec)
   deriving Repr
 
 def inlSrc : Inl → String
@@ -134,6 +137,7 @@ def inlSrc : Inl → String
   | .footref n => "[#" ++ n ++ "]_"
   | .subref n => "|" ++ n ++ "|"
   | .namedref n => "`" ++ n ++ "`_"
+  | .roleL m ls _ t _ => ":" ++ m ++ ":`" ++ ls ++ " <" ++ t ++ ">`"
 
 /-- source lines of an inline sequence (`nl` starts a new line); never empty -/
 def inlLines : List Inl → String → List String
@@ -181,6 +185,7 @@ def inlTok : Inl → Tok
   | .footref nm => .n [leaf "footnote_reference" [("refname", .str nm)]]
   | .subref nm => .n [leaf "substitution_reference" [("name", .str nm)]]
   | .namedref nm => .n [.mk "reference" [("refname", .str nm)] none [textNode nm]]
+  | .roleL _ _ lt t sp => .n (roleNodes (some lt) t sp)
 
 /-- adjacent character data becomes one text node -/
 def mergeToks : List Tok → String → List ENode
@@ -207,6 +212,7 @@ def inlText : Inl → String
   | .footref _ => ""
   | .subref _ => ""
   | .namedref n => n
+  | .roleL _ _ lt t sp => if sp.kind = "text" then t else lt
 
 def inlsText : List Inl → String
   | [] => ""
